@@ -366,11 +366,23 @@ class Collection:
 
     def __len__(self) -> int:
         """The length of a collection is the number of rows in the fields"""
-        if not self._fields:
-            return 0
-        first_field = list(self._fields.keys())[0]
-        # All fields should have same length. Use length of first field in collection as length
-        return len(self._fields[first_field].data)
+        num_rows = self._num_rows()
+        return 0 if num_rows is None else num_rows
+
+    def _num_rows(self):
+        """Number of rows of the first field that has rows, None if there is no such field
+
+        All fields should have same length. Collections without fields have no rows at all and are skipped,
+        they say nothing about the number of rows of the other fields.
+        """
+        for field in self._fields.values():
+            if isinstance(field.data, Collection):
+                num_rows = field.data._num_rows()
+                if num_rows is not None:
+                    return num_rows
+            else:
+                return len(field.data)
+        return None
 
     def __deepcopy__(self, memo):
         """Deep copy of collection"""
